@@ -44,12 +44,14 @@ PRE_INIT_ENDS = ('fin_before_init', 'rst_before_init', 'silent_before_init', 'ga
                  'unknown_pierce', 'truncated_init_fin', 'truncated_init_silent')
 OUT_FAIL_ENDS = ('refused', 'blackhole', 'reset_on_connect', 'cancel_connect', 'disconnect_connecting', 'bad_port')
 LIVE_ENDS = ('local_disconnect', 'local_disconnect_x2', 'local_disconnect_x3', 'remote_fin', 'remote_rst',
-             'rst_mid_frame', 'read_timeout', 'write_timeout', 'disconnect_during_burst', 'never', 'twin_second_closes')
+             'rst_mid_frame', 'read_timeout', 'write_timeout', 'disconnect_during_burst', 'never', 'twin_second_closes',
+             'disconnect_unsent')
 
 
 # an idle file connection has no reader: nothing in the library looks at it until a transfer task
 # does, so remote ends after the init message are exercised by C04 (in a transfer), not here
-F_SKIP = ('remote_fin', 'remote_rst', 'rst_mid_frame', 'read_timeout', 'write_timeout', 'disconnect_during_burst')
+F_SKIP = ('remote_fin', 'remote_rst', 'rst_mid_frame', 'read_timeout', 'write_timeout', 'disconnect_during_burst',
+          'disconnect_unsent')
 
 
 def make_episode(rng, i):
@@ -359,7 +361,7 @@ def _run(world: World, plan):
             tr.conn.cut_after(pipe.name, pipe.delivered + len(tr._outbuf and b''.join(tr._outbuf) or b'') + ep['cut'])
             for i in range(6):
                 send_frame(link, ep, 100 + i)
-        elif end == 'write_timeout':
+        elif end in ('write_timeout', 'disconnect_unsent'):
             fired['stall_reader'] += 1
             link.writer.transport.pause_reading()
             reader_task.cancel()
@@ -477,12 +479,17 @@ def _run(world: World, plan):
                     await asyncio.sleep(0)
         if n > 1:
             world.probe('concurrent_disconnect_calls')
-        if end == 'write_timeout':
+        if end in ('write_timeout', 'disconnect_unsent'):
             # keep writing until the transport pushes back; the 10 s write timeout must close it
             await asyncio.sleep(1.0)
             blob = b'\x00' * 60000
             for i in range(8):
                 world.call(alice, f'bigsend-{peer}-{i}', conn.send_message, blob)
+        if end == 'disconnect_unsent':
+            # ... or the application disconnects while the data still sits in the send path
+            await asyncio.sleep(0.5 + 0.1 * (ep['cut'] % 5))
+            fired['local_disconnect_with_unsent_data'] += 1
+            world.call(alice, f'disc-{peer}-unsent', conn.disconnect, CloseReason.REQUESTED)
 
     async def episode_driver(ep):
         peer = peers[ep['peer']]
